@@ -72,7 +72,9 @@ BEFORE_PREDICATE = StructuralPredicate("before", 2, is_before)
 
 def is_after(_: DerivationTree, path_1: Path, path_2: Path) -> bool:
     return (
-        not is_before(_, path_1, path_2) and path_1 != path_2[: len(path_1)]
+        not is_before(_, path_1, path_2)
+        and path_1 != path_2[: len(path_1)]
+        and path_2 != path_1[: len(path_2)]
     )  # No prefix
 
 
